@@ -561,12 +561,55 @@ def r6_list_identity(L, repo):
              "the forwarder stores the list object it is given (no copy)", ">=1 aliasing store", keeps, bool(keeps), i1.lineno)
 
 
+def r2_enable_fh(L, repo):
+    """R2 (frequency in use = the last ACCEPTED configuration): Transceiver.enable_fh() installs the new hopping
+    parameters when HoppingParams accepts them, and leaves the transceiver's hopping configuration untouched when the
+    constructor refuses them (ValueError, answered -1 by the SETFH handler).  Folded over both outcomes of the
+    constructor and both prior states (hopping configured or not)."""
+    from consteval import Ev, Unknown, Raised, Opaque
+    ci, fd = repo.need_method("transceiver", "Transceiver", "enable_fh")
+    F = rel("transceiver")
+    fn = "Transceiver.enable_fh"
+    L.fn(F, fn)
+    va = fd.args.vararg.arg if fd.args.vararg else None
+    ps = params(fd)
+    for prior in (None, Opaque("OLD")):
+        for accept in (True, False):
+            env = {"self.fh": prior, "self.running": True}
+            if va:
+                env[va] = (Opaque("HSN"), Opaque("MAIO"), Opaque("MA"))
+            for p_ in ps[1:]:
+                env[p_] = Opaque(p_)
+            made = []
+
+            def mk(a, accept=accept, made=made):
+                made.append(tuple(a))
+                if not accept:
+                    raise Raised("ValueError")
+                return Opaque("NEW")
+            e = Ev(repo, ci.mod, env=env, self_cls=ci)
+            e.ignore_calls = ("log.", "logging.")
+            e.hooks = {"HoppingParams": mk}
+            raised = None
+            try:
+                e.run_block(fd.body)
+            except Raised as ex:
+                raised = ex.cls
+            except Unknown as ex:
+                raise AnalysisError("%s does not fold: %s" % (fn, ex))
+            want = (Opaque("NEW"), None) if accept else (prior, "ValueError")
+            L.require("C02.R2", F, fn, "hopping parameters %s by HoppingParams, hopping %s before: the configuration in use afterwards" % (
+                "accepted" if accept else "refused", "configured" if prior is not None else "not configured"), want, (e.env.get("self.fh"), raised),
+                line=fd.lineno)
+
+
 def run(L, tier):
     repo = Repo(L.repo)
     L.stage(r1_forward_msg, L, repo)
     L.stage(resolver, L, repo, "get_rx_freq", "_rx_freq", 0)
     L.stage(resolver, L, repo, "get_tx_freq", "_tx_freq", 1)
     L.stage(r2_setfh_order, L, repo)
+    L.stage(r2_enable_fh, L, repo)
     L.stage(r3_ticks, L, repo)
     L.stage(r5_who_may_call, L, repo, tier)
     L.stage(r6_list_identity, L, repo)
